@@ -56,7 +56,11 @@ _cov_seen = set()   # per worker: library lines already reported to the main pro
 def _task(payload):
     profile_name, verif_seed, index, keep, tier = payload
     prof = get_profile(profile_name)
-    seed = run_seed(verif_seed, profile_name, index)
+    # (seeded histories keep the seeds they had before the deterministic prefix grew: the seeded
+    #  changes of DESIGN section 12 were evaluated on exactly these histories)
+    shift = prof['seed_shift'](tier) if prof.get('seed_shift') else 0
+    fixed = prof['fixed_runs'](tier) if prof.get('fixed_runs') else 0
+    seed = run_seed(verif_seed, profile_name, index - shift if index >= fixed else index)
     if prof.get('gen_indexed'):
         hist = prof['gen_indexed'](seed, index, tier)
     else:
